@@ -38,8 +38,11 @@ func pkgState() string {
 	return sb.String()
 }
 
-func drawWorkload(t *core.Tape) wlInput {
+func drawWorkload(t *core.Tape, kind int) wlInput {
 	in := wlInput{kind: t.Draw(nWorkloads), opt: t.Draw(64)}
+	if kind >= 0 {
+		in.kind = kind
+	}
 	c := corpus[wlLang[in.kind]]
 	d := []byte(c[t.Draw(len(c))])
 	switch t.Draw(4) {
@@ -111,8 +114,15 @@ func RunC20(ctx *core.Ctx) *core.Violation {
 	t := ctx.T
 	n := 2 + t.Draw(5)
 	ins := make([]wlInput, n)
+	focus := t.Chance(1, 3) // all tasks on the same entry-point family: maximal contention on whatever it shares
 	for i := range ins {
-		ins[i] = drawWorkload(t)
+		ins[i] = drawWorkload(t, -1)
+		if focus && i > 0 {
+			ins[i] = drawWorkload(t, ins[0].kind)
+		}
+	}
+	if focus {
+		ctx.Count("probe_focused_runs")
 	}
 	if t.Chance(1, 2) {
 		// two tasks on byte-identical input (own copies): what a content-keyed cache would need to go wrong
@@ -134,6 +144,23 @@ func RunC20(ctx *core.Ctx) *core.Violation {
 		ctx.Describe("task %d: %s opt=%d input=%q", i, wlNames[in.kind], in.opt, in.data)
 	}
 	facts := "workloads=" + strings.Join(kinds, ",")
+	// decoys: in the interleaved and in the second solo phase a task may first run the same
+	// entry point on another input in the same (reused) backing array
+	decoy1 := make([]*wlInput, n)
+	decoy2 := make([]*wlInput, n)
+	for i := range ins {
+		if t.Chance(1, 3) {
+			d := drawWorkload(t, ins[i].kind)
+			d.opt = ins[i].opt
+			decoy1[i] = &d
+			ctx.Count("probe_decoy_before_real")
+		}
+		if t.Chance(1, 3) {
+			d := drawWorkload(t, ins[i].kind)
+			d.opt = ins[i].opt
+			decoy2[i] = &d
+		}
+	}
 	before := pkgState()
 
 	solo1 := make([][]byte, n)
@@ -148,7 +175,7 @@ func RunC20(ctx *core.Ctx) *core.Violation {
 	bodies := make([]func(), n)
 	for i := range ins {
 		i := i
-		bodies[i] = func() { inter[i] = runWorkload(ins[i]) }
+		bodies[i] = func() { inter[i] = runWorkloadAfter(ins[i], decoy1[i]) }
 	}
 	sr := sched.Run(t, bodies)
 	if sr.Stuck != "" {
@@ -159,7 +186,7 @@ func RunC20(ctx *core.Ctx) *core.Violation {
 	}
 	solo2 := make([][]byte, n)
 	for i := n - 1; i >= 0; i-- {
-		solo2[i] = runWorkload(ins[i])
+		solo2[i] = runWorkloadAfter(ins[i], decoy2[i])
 	}
 	after := pkgState()
 
